@@ -3,7 +3,7 @@ import ast
 
 from sa import astq
 from sa.astq import norm_text, affine
-from sa.idioms import guarded, reach_under, attr_truth, none_test
+from sa.idioms import guarded, reach_under, attr_truth, none_test, positive_test
 from sa.project import dotted, walk_local, AnalysisError
 
 EXPLANATION = (
@@ -111,10 +111,7 @@ def r2(run, ctx):
     yes = [n for n in rets if astq.const_value(n.ast.value, None) in (1, True)]
     for n in yes:
         def pos(e):
-            if isinstance(e, ast.Compare) and norm_text(e.left) == 'self._max_bytes' and \
-                    isinstance(e.ops[0], ast.Gt) and astq.const_value(e.comparators[0], None) == 0:
-                return True
-            return None
+            return positive_test(e, 'self._max_bytes')
         run.check('R2', guarded(cfg, n, pos, True) and n.id in cfg.branch_nodes(t, 'true'),
                   'rotation is requested only for max_bytes > 0 and a positive size test', f, n.ast)
     seeks = [n for n in ctx.live_nodes(f) if any(astq.call_last(c) == 'seek' and
@@ -212,10 +209,7 @@ def r3(run, ctx):
                       'the active file becomes backup .1', f, n.ast,
                       'the active file is renamed to %s' % (norm_text(dv) if dv is not None else '?'))
     def bc_pos(e):
-        if isinstance(e, ast.Compare) and norm_text(e.left) == 'self._backup_count' and \
-                isinstance(e.ops[0], ast.Gt) and astq.const_value(e.comparators[0], None) == 0:
-            return True
-        return None
+        return positive_test(e, 'self._backup_count')
     for n in ren + base:
         run.check('R3', guarded(cfg, n, bc_pos, True), 'files are shifted only with '
                   'backup_count > 0', f, n.ast)
